@@ -36,6 +36,8 @@ SoftInv ==
     /\ Soft("CwndAtLeastTwoDatagrams", CwndAtLeastTwoDatagrams)
     /\ Soft("ShrinkOnlyOnLossOrEcn", ShrinkOnlyOnLossOrEcn)
     /\ Soft("ShrinkAtMostOncePerRtt", ShrinkAtMostOncePerRtt)
+    /\ Soft("ShrinkOnceBurstLoss", ShrinkOnceBurstLoss)
+    /\ Soft("ShrinkOnceRecoveryCleared", ShrinkOnceRecoveryCleared)
     /\ Soft("GrowOnlyOnAckOutsideRecovery", GrowOnlyOnAckOutsideRecovery)
     /\ Soft("BytesInFlightExact", BytesInFlightExact)
     /\ Soft("NoSendBeyondWindow", NoSendBeyondWindow)
